@@ -883,6 +883,25 @@ def relation(rig, snap, reader, counters=None, exclude=None):
     return findings
 
 
+def intent_findings(rig, snap, counters=None):
+    """What the history explicitly asked to be persisted -- Session.add() of an object built
+    outside the session, Session.add() of an object marked deleted and not flushed -- is
+    persistent after the flush.  Called right after a flush; verified slots are dropped."""
+    by_slot = {e["slot"]: e for e in snap.values()}
+    out = []
+    for slot in sorted(rig.must_live):
+        e = by_slot.get(slot)
+        if counters is not None:
+            counters["explicit_adds_checked"] = counters.get("explicit_adds_checked", 0) + 1
+        if e is None or e["kind"] == "persistent":
+            continue
+        mech = ("member-orphaned-outside-session-dropped-at-flush" if slot in rig.orphaned_outside
+                else "explicitly-added-object-not-persistent-after-flush")
+        out.append(Finding(mech, f"{e['cls']} slot {slot} was add()ed by the history and is {e['kind']} after the flush", {"slot": slot}))
+    rig.must_live.clear()
+    return out
+
+
 def fresh_compare(rig, snap, counters=None):
     """(f): load every persistent object of the snapshot in a brand-new Session on a plain
     engine and compare what was loaded in the live graph with the freshly loaded graph."""
@@ -1006,9 +1025,11 @@ class Interp:
         """``x`` leaves a collection of ``parent`` by the history's own doing."""
         slot = self.rig.track(x)
         self.rig.must_live.discard(slot)
-        if self.pooled(parent):
+        if self.pooled(parent) and self.pooled(x):
             self.rig.orphaned_outside.add(slot)
         else:
+            # a *pending* member removed from a delete-orphan collection is expunged, at once
+            # (parent in the session) or by the next flush (parent outside): by design
             self.rig.let_go.add(slot)
 
     @staticmethod
@@ -1128,6 +1149,7 @@ class Interp:
         t = self.obj(tslot)
         self.need(self.usable(t) and t is not o)
         getattr(o, rel)   # S7: load the old value so the backref can maintain the old collection
+        self._moving_pending(o)
         if type(o).__name__ == "Node":
             self._node_ok(t, o)
         setattr(o, rel, t)
@@ -1180,25 +1202,39 @@ class Interp:
             for old in sa.inspect(x).attrs.parent.history.deleted or ():
                 todo.append(old)
 
+    def _uni_ok(self, o, rel, x):
+        if SPEC[type(o).__name__]["colls"][rel][1] != "o2m_uni":
+            return
+        # no reverse side keeps other owners' collections in step: a member may be
+        # appended only while nobody of that class owns it (FK attribute loaded and None,
+        # listed nowhere)
+        import sqlalchemy as sa
+
+        fkattr = [ci["fk"] for key, kind, ci in self.zoo.info(sa.inspect(type(o))).colls if key == rel][0]
+        self.need(sa.inspect(x).dict.get(fkattr, 0) is None or sa.inspect(x).key is None)
+        for y in self.rig.objs:
+            if type(y) is type(o) and y is not o and x in sa.inspect(y).dict.get(rel, ()):
+                raise Skip()
+
+    def _moving_pending(self, x):
+        """A pending object that changes parents may be dropped by the known delete-orphan
+        defect (judged by relation rule (d)); the intent rule does not double-report it."""
+        import sqlalchemy as sa
+
+        st = sa.inspect(x)
+        if st.key is None and st.session is self.s:
+            self.rig.must_live.discard(self.rig.track(x))
+
     def op_app(self, slot, rel, mslot):
         o, coll = self._coll(slot, rel)
         x = self.obj(mslot)
         # a graph may be built before anything is in a session: a parent outside any session
         # takes members that are outside any session; a session parent takes both kinds
         self.need((self.pooled(x) if self.pooled(o) else self.workable(x)) and x not in coll)
-        if SPEC[type(o).__name__]["colls"][rel][1] == "o2m_uni":
-            # no reverse side keeps other owners' collections in step: a member may be
-            # appended only while nobody of that class owns it (FK attribute loaded and
-            # None, listed nowhere)
-            import sqlalchemy as sa
-
-            fkattr = [ci["fk"] for key, kind, ci in self.zoo.info(sa.inspect(type(o))).colls if key == rel][0]
-            self.need(sa.inspect(x).dict.get(fkattr, 0) is None or sa.inspect(x).key is None)
-            for y in self.rig.objs:
-                if type(y) is type(o) and y is not o and x in sa.inspect(y).dict.get(rel, ()):
-                    raise Skip()
+        self._uni_ok(o, rel, x)
         self._node_ok(o, x)
         self._pretouch(o, rel, x)
+        self._moving_pending(x)
         self._add(coll, x)
         self._pool_sync()
 
@@ -1217,9 +1253,12 @@ class Interp:
             if (self.pooled(x) if self.pooled(o) else self.workable(x)) and x not in xs:
                 try:
                     self._node_ok(o, x)
+                    if x not in coll:
+                        self._uni_ok(o, rel, x)
                 except Skip:
                     continue
                 self._pretouch(o, rel, x)
+                self._moving_pending(x)
                 xs.append(x)
         # members that leave the collection must be usable too (no deleted objects juggling)
         for x in list(coll):
@@ -1826,11 +1865,14 @@ class Gen:
         return ["rem", s, rel, self.rng.choice(lm)]
 
     def g_repl(self):
-        p = self._coll_pick(("o2m", "m2m"))
+        p = self._coll_pick(("o2m", "m2m", "o2m_uni"))
         if not p:
             return None
         s, rel, members = p
-        cands = [m for m in self.live(members) if m != s]
+        if id(self.rig.objs[s]) in self.rig.pool:
+            cands = [m for m in self.pool(members) if m != s]
+        else:
+            cands = [m for m in self.live(members) + self.pool(members) if m != s]
         self.rng.shuffle(cands)
         return ["repl", s, rel, cands[: self.rng.randrange(0, 4)]]
 
